@@ -76,7 +76,7 @@ impl Prop for C01 {
     }
 
     fn gen(&self, tier: Tier, rng: &mut Rng) -> Vec<Case> {
-        let scale = if tier == Tier::Quick { 1 } else { 20 };
+        let scale = if tier == Tier::Quick { 1 } else { 8 };
         let widths = [1usize, 17, 40, 80, 99, 200];
         let mut out = vec![];
         for (format, game, bytes, name) in super::c16::bundled_files() {
@@ -86,7 +86,7 @@ impl Prop for C01 {
                 out.push(Case::search(Sexp::app("rtbin", vec![Sexp::atom(format.name()), Sexp::atom(format!("{game}")), Sexp::list(vec![]), Sexp::int(bits), Sexp::int(width as i64), Sexp::atom(hex(&bytes))])).tag(format!("bundled-{name}")));
             }
         }
-        for _ in 0..400 * scale {
+        for _ in 0..1200 * scale {
             let g = gensrc::gen_any(rng);
             let mut maps = g.maps.clone();
             if rng.chance(1, 3) { if let Some(m) = alias_mapfile(rng, g.format, g.game) { maps.push(m); } }
